@@ -5,9 +5,9 @@ definitions Props/C05Tsc.lean is about). Independent oracles in the harness: mon
 integer arithmetic, trigger iff diff > interval, failed resync leaves the bases alone, a good read is accepted.
 Called from tools/props/backend.py for prop == "C05".
 
-The e2e corpus files (`corpus/C05/*.e2e.txt`, first line `# h3_tsc e2e`) are witnesses of finding F26 on the real
-Frontend/BackendWorker: while F26 is neither repaired nor listed in known_findings.json they are run and their ORACLE lines are
-recorded in the evidence (`f26_witnesses`) but NOT turned into a verdict — the sub-statement "TSC timestamps are written in
+The e2e corpus files (`corpus/C05/*.e2e.txt`, first line `# h3_tsc e2e`) are witnesses of finding F33 on the real
+Frontend/BackendWorker: while F33 is neither repaired nor listed in known_findings.json they are run and their ORACLE lines are
+recorded in the evidence (`f33_witnesses`) but NOT turned into a verdict — the sub-statement "TSC timestamps are written in
 non-decreasing order across a resync" is not claimed yet (TODO, coordinator's decision)."""
 import os
 import re
@@ -51,7 +51,7 @@ def run(ck, tier, ps):
     pargs = params_args(ck.extracted)
     plans = [(ck.seed, 250, 40)] if tier == "quick" else [(ck.seed, 4000, 60), (ck.seed + 1000, 4000, 60), (ck.seed + 2000, 2000, 120)]
     cov = {"params": pargs, "cases": 0, "lines": 0, "mismatches": 0, "oracle_hits": 0, "aborts": 0, "harness_stats": [], "driver_totals": [],
-           "distinct_nontrivial": 0, "samples": [], "f26_witnesses": []}
+           "distinct_nontrivial": 0, "samples": [], "f33_witnesses": []}
     runs = []
     cdir = os.path.join(vlib.VERIF, "corpus", prop)
     e2e = []
@@ -115,7 +115,7 @@ def run(ck, tier, ps):
     for f, p in e2e:
         rc, out = vlib.sh([hbin, "e2e", p], env=vlib.ASAN_ENV, timeout=600)
         hits = [l for l in out.split("\n") if l.startswith("ORACLE")]
-        cov["f26_witnesses"].append({"file": "corpus/%s/%s" % (prop, f), "rc": rc, "oracle": hits[:2],
+        cov["f33_witnesses"].append({"file": "corpus/%s/%s" % (prop, f), "rc": rc, "oracle": hits[:2],
                                      "written": [l for l in out.split("\n") if l.startswith("poll => w:")]})
     cov["distinct_nontrivial"] = nontrivial
     cov["rule"] = ("one case = one life of a real RdtscClock (slope estimate equal / slightly above / below the truth incl. full 53-bit significands, resync "
